@@ -31,6 +31,7 @@ def contracts(env):
             c.label = c.label + ' [C05 destinations move to the first listed entry]'
             cs.append(c)
     install_remove_unmergeable(env, cs)
+    install_recursive_lookup(env, cs)
     return cs
 
 
@@ -38,7 +39,7 @@ def contracts(env):
 # the step between the selection (mergeable_prs) and what merge_queues receives (mergeable_queues): on every
 # version the listed entries are cut down to the suffix that starts at the newest entry of a selected pull request
 RU = 'bert_e.workflow.gitwaterflow.branches:QueueCollection._remove_unmergeable'
-RU_VERSIONS = 2
+RU_VERSIONS = 2        # (site_rl_measure spells the sum out for 2 versions)
 
 
 def install_remove_unmergeable(env, cs):
@@ -73,7 +74,8 @@ def ru_setup(I, args):
 def havoc_ru(I, fr):
     v = fr.locals['version']
     e = I.ghost['ru_entries'][v]
-    I.set_attr(e, 'qints', I.fresh('ru_qints%d@while' % v, 'seq[Br]', is_input=False))
+    # in place: the code holds aliases of the list object (intqs)
+    I.heap[I.get_attr(e, 'qints').oid] = I.seq_value(I.fresh('ru_qints%d@while' % v, 'seq[Br]', is_input=False))
 
 
 def ru_cut(cur, init, prs):
@@ -92,6 +94,92 @@ def ens_ru(prs, out, G):
         ru_cut(G.ru_entries[v].qints, G.ru_init[v], prs)
         and (len(G.ru_entries[v].qints) == 0 or G.ru_entries[v].qints[0].pr_id in prs)
         for v in range(RU_VERSIONS))
+
+
+# ---------------------------------------------------------------- QueueCollection._recursive_lookup
+# DESIGN.md appendix A.2: after the lookup every version keeps a suffix of its listed entries (only entries at
+# the head are ever dropped: "prefix in order of entry") and the head of every non-empty remainder is SUCCESSFUL
+# ("every one of those commits has a SUCCESSFUL build").  The recursive call is checked against this same
+# contract (partial correctness) and the call-site obligation `site/...` proves the measure (total number of
+# listed entries) strictly decreases, which is termination.
+RL = 'bert_e.workflow.gitwaterflow.branches:QueueCollection._recursive_lookup'
+
+
+def install_recursive_lookup(env, cs):
+    from bert_e.workflow.gitwaterflow import branches as B
+    env.add_class('BBRepo', fields={})
+    env.classes['QCObj']['fields'].update({'bbrepo': 'BBRepo', 'build_key': 'str'})
+    env.model('BBRepo', 'get_build_status', trusted='host.get_build_status(commit, key): a function of the commit '
+              'and the key during one evaluation')(
+        lambda I, self, commit, key: SStr(smt.App('build_status', [I.term_of(commit), I.term_of(key)], STR)))
+    env.loop(RL, 2, inv_rl_while, havoc=[havoc_ru])
+    env.site_hooks[(RL, '_recursive_lookup')] = site_rl_measure
+    c = Contract(RL, args={'self': 'QCObj', 'queues': 'opaque'}, setup=rl_setup, effect=rl_effect, requires=req_rl,
+                 label=RL + '[%d versions, any number of entries]' % RU_VERSIONS,
+                 ensures=[('each_version_keeps_a_suffix_of_its_entries', ens_rl_suffix),
+                          ('the_head_of_every_remaining_queue_is_SUCCESSFUL', ens_rl_green),
+                          ('an_all_green_head_row_is_left_untouched', ens_rl_noop)],
+                 covers=['return'])
+    env.contracts[c.fn] = c
+    cs.append(c)
+
+
+def rl_setup(I, args):
+    c01.c01_setup(I, args)
+    ru_setup(I, args)
+    I.ghost['rl_entry'] = I.ghost['ru_init']
+
+
+def rl_effect(I, loc, oc):
+    # the recursive call: the lists of every version are whatever the contract (assumed for the callee) allows,
+    # relative to their value at the call
+    init = []
+    for v in range(RU_VERSIONS):
+        e = I.ghost['ru_entries'][v]
+        init.append(I.seq_value(I.get_attr(e, 'qints')))
+        I.heap[I.get_attr(e, 'qints').oid] = I.seq_value(I.fresh('ru_qints%d@rec' % v, 'seq[Br]', is_input=False))
+    I.ghost['ru_init'] = tuple(init)
+
+
+def green(self, q):
+    return self.bbrepo.get_build_status(q.get_latest_commit(), self.build_key) == 'SUCCESSFUL'
+
+
+def is_suffix(cur, init):
+    k = len(init) - len(cur)
+    return k >= 0 and all(cur[j] == init[k + j] for j in range(len(cur)))
+
+
+def inv_rl_while(version, first_failed_pr, G):
+    cur, init = G.ru_entries[version].qints, G.ru_init[version]
+    k = len(init) - len(cur)
+    # still searching: nothing popped so far was the failed pull request, so it is among what is left
+    return (is_suffix(cur, init) and all(init[j].pr_id != first_failed_pr for j in range(k))
+            and not all(init[j].pr_id != first_failed_pr for j in range(k, len(init))))
+
+
+def site_rl_measure(G):
+    return (all(is_suffix(G.ru_entries[v].qints, G.ru_init[v]) for v in range(RU_VERSIONS))
+            and len(G.ru_entries[0].qints) + len(G.ru_entries[1].qints) < len(G.ru_init[0]) + len(G.ru_init[1]))
+
+
+def req_rl(G):
+    # pull request ids are positive (the code uses 0 for "no failed pull request"): assumption on the git host
+    return all(all(G.ru_entries[v].qints[j].pr_id >= 1 for j in range(len(G.ru_entries[v].qints)))
+               for v in range(RU_VERSIONS))
+
+
+def ens_rl_suffix(self, out, G):
+    return out.returned and all(is_suffix(G.ru_entries[v].qints, G.ru_init[v]) for v in range(RU_VERSIONS))
+
+
+def ens_rl_green(self, out, G):
+    return all(len(G.ru_entries[v].qints) == 0 or green(self, G.ru_entries[v].qints[0]) for v in range(RU_VERSIONS))
+
+
+def ens_rl_noop(self, out, G):
+    return (not all(len(G.ru_init[v]) == 0 or green(self, G.ru_init[v][0]) for v in range(RU_VERSIONS))
+            or all(len(G.ru_entries[v].qints) == len(G.ru_init[v]) for v in range(RU_VERSIONS)))
 
 
 def extra(rep, tier, seed, budget):
